@@ -23,6 +23,7 @@ package main
 import (
 	"fmt"
 	"go/ast"
+	"go/printer"
 	"go/token"
 	"strings"
 )
@@ -282,9 +283,13 @@ func c11ExtractStateTask(repo string) (string, string, error) {
 	seenLoop := false
 	relevant := func(n ast.Node) bool { return (&c11Task{}).mentions(n) }
 	gm := []string{"compose", "graph_manager.go"}
-	subBody, _, err := c11Prepare(repo, gm, sub, relevant, c11NormOpts{mergeIfs: true})
+	helpers := map[string]int{}
+	subBody, inS, err := c11Prepare(repo, gm, sub, relevant, c11NormOpts{mergeIfs: true})
 	if err != nil {
 		return "", "", ts.errf("%v", err)
+	}
+	for h, n := range inS.inlined {
+		helpers[h] += n
 	}
 	for _, s := range subBody {
 		rs, ok := s.(*ast.RangeStmt)
@@ -314,9 +319,12 @@ func c11ExtractStateTask(repo string) (string, string, error) {
 	}
 	te := &c11Task{fn: "taskManager.executor", task: exe.Type.Params.List[0].Names[0].Name}
 	var execp []string
-	exeBody, _, err := c11Prepare(repo, gm, exe, relevant, c11NormOpts{mergeIfs: true})
+	exeBody, inE, err := c11Prepare(repo, gm, exe, relevant, c11NormOpts{mergeIfs: true, deferOK: true})
 	if err != nil {
 		return "", "", te.errf("%v", err)
+	}
+	for h, n := range inE.inlined {
+		helpers[h] += n
 	}
 	for _, s := range exeBody {
 		if _, ok := s.(*ast.DeferStmt); ok {
@@ -337,9 +345,12 @@ func c11ExtractStateTask(repo string) (string, string, error) {
 		return "", "", fmt.Errorf("method taskManager.waitOne not found")
 	}
 	tw := &c11Task{fn: "taskManager.waitOne", isWait: true}
-	woBody, _, err := c11Prepare(repo, gm, wo, relevant, c11NormOpts{mergeIfs: true})
+	woBody, inW, err := c11Prepare(repo, gm, wo, relevant, c11NormOpts{mergeIfs: true})
 	if err != nil {
 		return "", "", tw.errf("%v", err)
+	}
+	for h, n := range inW.inlined {
+		helpers[h] += n
 	}
 	last := -1
 	for i, s := range woBody {
@@ -349,6 +360,18 @@ func c11ExtractStateTask(repo string) (string, string, error) {
 		// ta := <-t.done
 		if as, ok := s.(*ast.AssignStmt); ok && len(as.Lhs) == 1 && len(as.Rhs) == 1 && c11Sq(as.Rhs[0]) == "<-t.done" {
 			tw.task = c11Ident(as.Lhs[0])
+		}
+		// ta := t.h()  with h a method that receives from t.done and touches no handler
+		if as, ok := s.(*ast.AssignStmt); ok && len(as.Lhs) == 1 && len(as.Rhs) == 1 && as.Tok == token.DEFINE {
+			if call, ok := as.Rhs[0].(*ast.CallExpr); ok && len(call.Args) == 0 {
+				if sel, ok := call.Fun.(*ast.SelectorExpr); ok && c11Ident(sel.X) == "t" {
+					if h := c11Method(f, "taskManager", sel.Sel.Name); h != nil && h.Body != nil && !relevant(h.Body) &&
+						strings.Contains(c11Squash(c11NodeText(h.Body)), "<-t.done") {
+						tw.task = c11Ident(as.Lhs[0])
+						last = i
+					}
+				}
+			}
 		}
 	}
 	if last < 0 || tw.task == "" {
@@ -363,9 +386,32 @@ func c11ExtractStateTask(repo string) (string, string, error) {
 	if err != nil {
 		return "", "", err
 	}
-	if ts.calls+te.calls+tw.calls != total || total != 3 {
-		return "", "", fmt.Errorf("graph_manager.go: %d calls of t.runWrapper, %d translated (expected 3: pre-processor, action, post-processor)",
-			total, ts.calls+te.calls+tw.calls)
+	// every call of t.runWrapper in the file is one of the three translated calls: it stands in submit /
+	// executor / waitOne, or in a helper all of whose call sites have been inlined there
+	outside := 0
+	for _, d := range f.Decls {
+		fn, ok := d.(*ast.FuncDecl)
+		if !ok || fn.Body == nil {
+			continue
+		}
+		n := 0
+		ast.Inspect(fn.Body, func(x ast.Node) bool {
+			if call, ok := x.(*ast.CallExpr); ok && c11Sq(call.Fun) == "t.runWrapper" {
+				n++
+			}
+			return true
+		})
+		if n == 0 || fn == sub || fn == exe || fn == wo {
+			continue
+		}
+		if k, ok := helpers[fn.Name.Name]; ok && k == c11CountCalls(f, fn.Name.Name) {
+			continue
+		}
+		outside += n
+	}
+	if ts.calls+te.calls+tw.calls != 3 || outside != 0 {
+		return "", "", fmt.Errorf("graph_manager.go: %d calls of t.runWrapper, %d translated, %d outside the translated functions (expected 3: pre-processor, action, post-processor)",
+			total, ts.calls+te.calls+tw.calls, outside)
 	}
 	var b strings.Builder
 	b.WriteString("(* Gen/StateTask.v — GENERATED by tools/go2v (extractor \"statetask\") from compose/graph_manager.go\n")
@@ -376,6 +422,12 @@ func c11ExtractStateTask(repo string) (string, string, error) {
 	fmt.Fprintf(&b, "Definition exec_prog : list tstmt := %s.\n", c11List(execp))
 	fmt.Fprintf(&b, "Definition collect_prog : list tstmt := %s.\n", c11List(collect))
 	return "StateTask.v", b.String(), nil
+}
+
+func c11NodeText(n ast.Node) string {
+	var b strings.Builder
+	_ = printer.Fprint(&b, token.NewFileSet(), n)
+	return b.String()
 }
 
 // text of the identifiers of a statement (for coarse "does it touch …" tests)
